@@ -43,6 +43,9 @@ pub struct Case {
     pub style: String,
     /// consumer read-buffer sizes, cycled; 0 is a legal size (must return Ok(0) without meaning end-of-stream)
     pub buf_sizes: Vec<u32>,
+    /// async consumer only: every k-th not-ready read is cancelled (future dropped) and re-issued; 0 = never
+    #[serde(default)]
+    pub cancel_every: u8,
 }
 
 #[derive(Clone, Copy)]
@@ -58,10 +61,11 @@ struct Consumed {
     eof_confirmed: u64,
     eof_violated: bool,
     runaway: bool,
+    cancelled_reads: u64,
 }
 
 fn new_consumed() -> Consumed {
-    Consumed { bytes: Vec::new(), err: None, reads: 0, eintr_seen: 0, zero_len_reads: 0, zero_len_bad: false, eof_confirmed: 0, eof_violated: false, runaway: false }
+    Consumed { bytes: Vec::new(), err: None, reads: 0, eintr_seen: 0, zero_len_reads: 0, zero_len_bad: false, eof_confirmed: 0, eof_violated: false, runaway: false, cancelled_reads: 0 }
 }
 
 fn next_size(sizes: &[u32], i: &mut usize) -> usize {
@@ -116,10 +120,42 @@ fn consume_blocking<R: Read>(r: &mut R, sizes: &[u32], cap: usize) -> Consumed {
     c
 }
 
-async fn consume_async<R: AsyncRead + Unpin>(r: &mut R, sizes: &[u32], cap: usize) -> Consumed {
+/// Returns Pending exactly once without waking itself: the wake-up registered by the cancelled read resumes the task.
+struct YieldOnce(bool);
+impl std::future::Future for YieldOnce {
+    type Output = ();
+    fn poll(mut self: std::pin::Pin<&mut Self>, _cx: &mut std::task::Context<'_>) -> std::task::Poll<()> {
+        if self.0 {
+            std::task::Poll::Ready(())
+        } else {
+            self.0 = true;
+            std::task::Poll::Pending
+        }
+    }
+}
+
+/// One read; when `cancel` is set and the read is not ready on its first poll, the read future is DROPPED
+/// (cancelled) and None is returned — the caller yields and issues a fresh read. Models select!/timeout users.
+async fn read_cancellable<R: AsyncRead + Unpin>(r: &mut R, buf: &mut [u8], cancel: bool) -> Option<std::io::Result<usize>> {
+    if !cancel {
+        return Some(r.read(buf).await);
+    }
+    let mut fut = r.read(buf);
+    let first = std::future::poll_fn(|cx| std::task::Poll::Ready(std::future::Future::poll(std::pin::Pin::new(&mut fut), cx))).await;
+    match first {
+        std::task::Poll::Ready(x) => Some(x),
+        std::task::Poll::Pending => {
+            drop(fut);
+            None
+        }
+    }
+}
+
+async fn consume_async<R: AsyncRead + Unpin>(r: &mut R, sizes: &[u32], cap: usize, cancel_every: u8) -> Consumed {
     let mut c = new_consumed();
     let mut i = 0usize;
     let mut guard = 0u64;
+    let mut pendings = 0u64;
     loop {
         guard += 1;
         if guard > 256 + 8 * cap as u64 || c.bytes.len() > cap {
@@ -129,7 +165,22 @@ async fn consume_async<R: AsyncRead + Unpin>(r: &mut R, sizes: &[u32], cap: usiz
         let sz = next_size(sizes, &mut i);
         let mut buf = vec![0u8; sz];
         c.reads += 1;
-        match r.read(&mut buf).await {
+        let cancel = cancel_every > 0 && (pendings + 1) % cancel_every as u64 == 0;
+        let res = match read_cancellable(r, &mut buf, cancel).await {
+            Some(x) => x,
+            None => {
+                // cancelled while not ready: nothing may have been consumed; yield, then retry with the same size
+                pendings += 1;
+                c.cancelled_reads += 1;
+                i -= 1;
+                YieldOnce(false).await;
+                continue;
+            }
+        };
+        if cancel_every > 0 {
+            pendings += 1;
+        }
+        match res {
             Ok(n) if sz == 0 => {
                 c.zero_len_reads += 1;
                 if n != 0 {
@@ -213,7 +264,8 @@ impl Prop for C08 {
         let nb = rng.usize(0, 5);
         let buf_sizes = (0..nb).map(|_| *rng.pick(&[0u32, 1, 1, 2, 7, 64, 8192, 65536])).collect::<Vec<_>>();
         let buf_sizes = if buf_sizes.iter().all(|&s| s == 0) { vec![] } else { buf_sizes };
-        Case { msg, payload, kind, consumer, spec: SourceSpec { trace, fault: None }, style: STYLES[style].to_string(), buf_sizes }
+        let cancel_every = if consumer == Consumer::Async && rng.chance(1, 3) { rng.range(1, 3) as u8 } else { 0 };
+        Case { msg, payload, kind, consumer, spec: SourceSpec { trace, fault: None }, style: STYLES[style].to_string(), buf_sizes, cancel_every }
     }
 
     fn run(&self, case: &Case, record: bool) -> RunReport {
@@ -248,11 +300,12 @@ impl Prop for C08 {
             },
             Consumer::Async => {
                 let core2 = core.clone();
+                let cancel_every = case.cancel_every;
                 let max_polls = case.spec.trace.len() as u64 * 3 + expected.len() as u64 * 2 + 256;
                 match guarded(move || {
                     let fut = async move {
                         let mut r = Box::pin(msg.into_async_read());
-                        consume_async(&mut r, &sizes, cap).await
+                        consume_async(&mut r, &sizes, cap, cancel_every).await
                     };
                     run_scripted(&core2, fut, max_polls)
                 }) {
@@ -311,6 +364,7 @@ impl Prop for C08 {
         rep.count("consumer_reads", c.reads);
         rep.count("consumer_zero_length_reads", c.zero_len_reads);
         rep.count("consumer_eintr_seen", c.eintr_seen);
+        rep.count("consumer_reads_cancelled_while_pending", c.cancelled_reads);
         if record {
             rep.log = Some(json!({
                 "header_attr_len": head.len(), "payload_len": case.payload.len(), "expected_len": expected.len(),
@@ -359,6 +413,9 @@ impl Prop for C08 {
         for payload in shrink_payload(&c.payload) {
             out.push(Case { payload, ..c.clone() });
         }
+        if c.cancel_every != 0 {
+            out.push(Case { cancel_every: 0, ..c.clone() });
+        }
         if !c.buf_sizes.is_empty() {
             out.push(Case { buf_sizes: vec![], ..c.clone() });
             for i in 0..c.buf_sizes.len() {
@@ -374,7 +431,7 @@ impl Prop for C08 {
     }
 
     fn rule(&self) -> String {
-        "Each run: a seeded model message (crate-built, hash keys seeded) with payload kind in {empty, blocking source, async source} x consumer in {into_read via blocking Read, into_async_read via AsyncRead on the scripted executor}; the payload source is scripted (composition into chunks; EINTR for blocking sources; Pending with inline / deferred / cross-thread wake and spurious polls for async sources — cross-thread and inline only under the real block_on bridge); the consumer's buffer size varies per call (0, 1, 2, 7, 64, 8 KiB, 64 KiB). Oracle: concatenation of everything returned == to_bytes() of the same instance ++ payload; first end-of-stream exactly there and sticky for 3 more reads; payload source handed out exactly its length; no error, no panic; executor invariants. distinct_nontrivial = distinct hashes of (payload-source call sequence, cell of the matrix, buffer-size pattern, header length) among runs with a non-empty payload and at least one short read / EINTR / Pending / non-default buffer pattern."
+        "Each run: a seeded model message (crate-built, hash keys seeded) with payload kind in {empty, blocking source, async source} x consumer in {into_read via blocking Read, into_async_read via AsyncRead on the scripted executor}; the payload source is scripted (composition into chunks; EINTR for blocking sources; Pending with inline / deferred / cross-thread wake and spurious polls for async sources — cross-thread and inline only under the real block_on bridge); the consumer's buffer size varies per call (0, 1, 2, 7, 64, 8 KiB, 64 KiB); in a third of the async-consumer runs every k-th not-ready read is cancelled (its future dropped) and re-issued. Oracle: concatenation of everything returned == to_bytes() of the same instance ++ payload; first end-of-stream exactly there and sticky for 3 more reads; payload source handed out exactly its length; no error, no panic; executor invariants. distinct_nontrivial = distinct hashes of (payload-source call sequence, cell of the matrix, buffer-size pattern, header length) among runs with a non-empty payload and at least one short read / EINTR / Pending / non-default buffer pattern."
             .into()
     }
     fn assumptions(&self) -> Vec<String> {
